@@ -15,7 +15,11 @@ import time
 
 VERIF = os.path.dirname(os.path.dirname(os.path.abspath(__file__)))
 REPO = '/repo'
-SCRATCH = '/tmp/revaudit'
+SCRATCH = '/var/tmp/revaudit'
+
+
+# the repository's tests write to fixed /tmp paths: give every run a private /tmp (mount namespace)
+PYTEST = "unshare -rm sh -c 'mount -t tmpfs tmpfs /tmp && /venv/bin/python -m pytest -q -p no:cacheprovider tests 2>&1'"
 
 
 def sh(cmd, cwd=None, env=None, timeout=3600):
@@ -45,7 +49,7 @@ def main():
                 row['result'] = 'revert does not apply cleanly (later fixes touch the same lines)'
                 rows.append(row)
                 continue
-            rc, out = sh('/venv/bin/python -m pytest -q -p no:cacheprovider tests 2>&1 | tail -1', cwd=wt, timeout=1200)
+            rc, out = sh(PYTEST + ' | tail -1', cwd=wt, timeout=1200)
             row['tests'] = out.strip()
             t0 = time.time()
             rc, out = sh(f'./check {prop} --tier quick', cwd=VERIF,
